@@ -4,7 +4,8 @@
 (* to the process's stdout, so only a run of the binary shows it): every   *)
 (* printed hunk `Diff in <file>:<N>:` is consistent with the original text *)
 (* at the stated line N, and the printed hunks alone rebuild the formatted *)
-(* text.  Record: {orig:[c..], fmt:[c..], printed:[{lno, lines:[[tag,c]..]}]}*)
+(* text.  Record: {orig:[c..], fmt:[c..], printed:[{lno, lines:[[tag,c]..]}], *)
+(* listed: the file is named by `--check -l`}                               *)
 (* with tag C (context) / R (removed) / E (added), lines numbered per pair. *)
 (***************************************************************************)
 EXTENDS MakeDiffObs
@@ -28,10 +29,14 @@ PrintedChunks ==
          added |-> [j \in 1 .. Len(kept) |-> kept[j][2]]]]
 PrintedRebuild == Rebuild(PrintedChunks, 1, 1) = R.fmt
 PrintedEmptyIff == (R.printed = <<>>) <=> (R.orig = R.fmt)
+(* the file-name listing of `--check -l` is the same report in its shortest form: the file *)
+(* is named exactly when the two texts do not have the same lines                         *)
+ListedIffDiffers == R.listed <=> (R.orig # R.fmt)
 
 ReportInvP ==
-  LET F == {n \in {"PrintedConsistent", "PrintedRebuild", "PrintedEmptyIff"} :
+  LET F == {n \in {"PrintedConsistent", "PrintedRebuild", "PrintedEmptyIff", "ListedIffDiffers"} :
               ~(CASE n = "PrintedConsistent" -> PrintedConsistent
-                  [] n = "PrintedRebuild" -> PrintedRebuild [] n = "PrintedEmptyIff" -> PrintedEmptyIff)}
+                  [] n = "PrintedRebuild" -> PrintedRebuild [] n = "PrintedEmptyIff" -> PrintedEmptyIff
+                  [] n = "ListedIffDiffers" -> ListedIffDiffers)}
   IN F = {} \/ PrintT(ToJson([tag |-> "FAIL", l |-> l, fails |-> F]))
 =============================================================================
